@@ -168,11 +168,13 @@ pub fn undo_renaming(id: &str, renamify_dir: &Path) -> Result<()> {
         }
     }
 
-    // Sort directories by depth (deepest first)
+    // Sort directories by depth (shallowest first): the recorded paths of a directory inside
+    // a renamed directory still carry the parent's ORIGINAL name, so the parent has to be put
+    // back before the child can be found at its recorded location
     dir_mappings.sort_by(|a, b| {
         let a_depth = a.1.components().count();
         let b_depth = b.1.components().count();
-        b_depth.cmp(&a_depth)
+        a_depth.cmp(&b_depth)
     });
 
     for (from, to) in &dir_mappings {
